@@ -10,6 +10,7 @@ import (
 	"github.com/cloudwego/hertz/pkg/app"
 	"github.com/cloudwego/hertz/pkg/common/tracer/stats"
 	"github.com/cloudwego/hertz/pkg/common/tracer/traceinfo"
+	"github.com/cloudwego/hertz/pkg/network"
 	"github.com/cloudwego/hertz/pkg/network/standard"
 )
 
@@ -120,11 +121,12 @@ func ZZ_C19_H1() {
 		zz.Assume(at >= 0 && at <= zz.Param("OPS", 3))
 		nc.WriteErrAt = at
 	}
-	outcome := zz.Choose("outcome", 3) // 0 ok, 1 Connection: close, 2 panic recovered by the core
+	outcome := zz.Choose("outcome", 4) // 0 ok, 1 Connection: close, 2 panic recovered by the core, 3 hijack
 	tr := &zzTracer{stagesOK: true}
 	ctl := &internalStats.Controller{}
 	ctl.Append(tr)
 	var handled []string
+	hijacked := 0
 	core := zzNewCore(nil)
 	core.handler = func(c context.Context, ctx *app.RequestContext) {
 		handled = append(handled, string(ctx.Request.RequestURI()))
@@ -137,6 +139,8 @@ func ZZ_C19_H1() {
 				panic("handler panic")
 			}()
 			ctx.SetStatusCode(500)
+		case 3:
+			ctx.Hijack(func(c network.Conn) { hijacked++ })
 		}
 		ctx.Response.SetBodyString("ok")
 	}
@@ -150,6 +154,7 @@ func ZZ_C19_H1() {
 	}
 	s := zzNewServer(core)
 	s.EnableTrace = true
+	s.HijackConnHandle = func(c network.Conn, h app.HijackHandler) { h(c) }
 	s.StreamRequestBody = zz.Choose("stream", 2) == 1
 	s.DisableKeepalive = zz.Choose("nokeepalive", 2) == 1
 	if zz.Choose("idle", 2) == 1 {
@@ -158,6 +163,7 @@ func ZZ_C19_H1() {
 	_ = s.Serve(context.Background(), standard.ZZNewConn(nc))
 	zz.Cover("reached-assert", true)
 	zz.Cover("two-handled", len(handled) == 2)
+	zz.Cover("hijacked", hijacked > 0)
 	zz.Cover("fault-hit", fault != 0 && len(handled) < len(uris))
 	zz.Assert("start-finish-alternate", zzAlternates(tr.log))
 	// every handled request lies inside a pair whose finish carries that request's target
